@@ -72,7 +72,7 @@ CLAIMS.update({
               'output bytes at the byte offset of each such item decode to that transfer with offset + byte offset = value of the target in the '
               'returned tables. Tie and search: 1500+ seeded programs per run (all '
               'distance classes, pessimistically-far and really-far call/tail layouts, both modes) are assembled by the real code; label '
-              'offsets are recomputed from the per-item chunks and every branch/jump/call/tail is decoded by the Lean spec and must reach its label.'),
+              'offsets are recomputed from the per-item chunks and every branch/jump/call/tail is decoded by the Lean spec and must reach its label. After an independent review of the statements (audit/REPORT.md) the end-to-end theorems are anchored: C03.Frame ties the list held after resolve_aligns to layoutOf (a function of the inputs, Frame.unique), assemble_layout_framed states the per-item partition of the real output, and assemble_transfer_lands_on_label is the single statement: offset of the transfer + decoded offset = number of output bytes contributed by the items in front of the label.'),
         note=TB + ' Hypotheses of assemble_layout: every align argument / include_bytes size is non-negative; no caller-pre-populated label table.',
         ref='DESIGN.md §5 C03'),
     'C08': dict(
@@ -97,7 +97,7 @@ CLAIMS.update({
               'its documented size, an instruction 2 or 4 bytes (Expands is transitive and holds of each of the fifteen passes). '
               'align_minimal: the padding is the least pad >= 0 with N | position + pad, and pad < N; align_emits_zeros: those bytes are zeros. '
               'The check walks the per-item chunks of the real output: chunk order = source order, documented size per line, aligns emit the '
-              'minimal number of zero bytes at every residue, data lines emit Python\'s own int.to_bytes / str.encode of the written values.'),
+              'minimal number of zero bytes at every residue, data lines emit Python\'s own int.to_bytes / str.encode of the written values. assemble_align (C09Program.lean): at its final offset an align a contributes exactly (-offset) mod a zero bytes, minimal; Img now pins pseudo-instructions to 1-2 code items and aligns to nothing or one zero blob shorter than a.'),
         note=TB,
         ref='DESIGN.md §5 C09'),
     'C04': dict(
@@ -126,7 +126,7 @@ CLAIMS.update({
               'program is assembled both ways by the real assembler and both encodings are executed by the Lean specification from 8 register '
               'files; registers written, stores and the control-transfer target (mapped through both label tables) must agree, data bytes '
               'must be identical. Known findings KF-A4, KF-A7 (decisions taken on label-dependent values that later move) are exactly the '
-              'cases the stability hypothesis excludes.'),
+              'cases the stability hypothesis excludes. All program-level statements are anchored to layoutOf (no free intermediate lists): two_outputs_corr exposes both layouts (strip A5 = lay0.decided, strip B6 = lay1.decided) and concludes expand16 ci = i for the ebreak class; text-level corollary two_outputs_text with the real hooks on a 14-line source.'),
         note=TB + ' exec / execC are a hand-written RV32IM + RVC semantics (lean/BB/Spec/Exec.lean).',
         ref='DESIGN.md §5 C04'),
     'C05': dict(
@@ -182,7 +182,7 @@ CLAIMS.update({
               'higher (lockstep simulation of the two pipelines: pseudo_lockstep, align_lockstep; positions dominate although padding is not '
               'monotone). LiLiteral is necessary: KF-A5 is reproduced in the model by decide. Explored as well: for every literal-operand instruction line the Lean specification decides eligibility of the word emitted '
               'without -c and the -c build must emit 2 bytes; binary length and every label offset with -c must not exceed those without. '
-              'Known finding KF-A5 (label arithmetic in li).'),
+              'Known finding KF-A5 (label arithmetic in li). eligible_iff (C20Complete.lean): eligible i holds exactly when i is the expansion of a legal RVC instruction, for all operand values; nothing_grows also states that both label tables have the program labels as keys; nothing_grows_text with the real hooks.'),
         note=TB,
         ref='DESIGN.md §5 C20'),
 })
@@ -224,7 +224,7 @@ CLAIMS.update({
               'seeded interior and huge values in three spellings (fits -> Python int.to_bytes bytes, misfit -> AssemblerError); strings with '
               'escapes, quotes, #/,/() characters and 2-/3-/4-byte UTF-8; include_bytes with random contents (incl. empty) in the including '
               'directory / -i directories / several directories, decoy files of equal size in the cwd, three working directories, compared '
-              'with the file the documented search finds and with the Lean filesystem model; data lines inside whole programs. Whole programs (C10Program.lean): assemble_sequence_value, assemble_pack_value (all 20 formats, data_width_table), data_unchanged_by_compression. Text (C10Text.lean, Spec/Utf8.lean): string_utf8 for every scalar value with an independent decoder (utf8_decode_encode), the escape theorems for the Latin-1 and the non-Latin-1 path.'),
+              'with the file the documented search finds and with the Lean filesystem model; data lines inside whole programs. Whole programs (C10Program.lean): assemble_sequence_value, assemble_pack_value (all 20 formats, data_width_table), data_unchanged_by_compression. Text (C10Text.lean, Spec/Utf8.lean): string_utf8 for every scalar value with an independent decoder (utf8_decode_encode), the escape theorems for the Latin-1 and the non-Latin-1 path. data_unchanged_by_compression concludes equal slices of full length (d.length = sizeD) inside two frames.'),
         note=TB + ' Non-ASCII text is modelled where the documentation puts it: in the text of string / error lines and in comments, in UTF-8 source files (C10Text: string_utf8, utf8_decode_encode, the escape theorems incl. the Latin-1 / non-Latin-1 paths); non-ASCII characters in the code part of a line, in include paths, lone-surrogate escapes and \\N{...} stay outside the model (unsupported, still judged by the oracle).',
         ref='DESIGN.md §5 C10'),
     'C11': dict(
@@ -258,7 +258,7 @@ CLAIMS.update({
               'both modes; the Lean model must agree on the variants. Whole programs (C13Program.lean): spelling_same_result - two ASCII source texts whose lines '
               'are related by any interleaving of the documented freedoms (separators / indentation / trailing comment, off(base) vs flat form, register spellings, '
               'blank and comment-only lines inserted or deleted) give the same bytes, labels and constants or both fail, both modes, any filesystem; '
-              'assembleItems_regSame: no pass can tell two spellings of a register apart.'),
+              'assembleItems_regSame: no pass can tell two spellings of a register apart. SpellRel also has the integer-spelling constructor (decimal / 0x / 0b numerals of one value, through C11 congruence); spelling_same_result_errors: the same kind of failure, not only both fail; regRespelled_of_tokens is the token-level condition; ex_both_succeed is an instance where both texts assemble.'),
         note=TB + ' ASCII input; Unicode whitespace is outside the documented freedoms.',
         ref='DESIGN.md §5 C13'),
 })
@@ -279,7 +279,7 @@ CLAIMS.update({
               'constants, ~10% failing trees) are materialised in a temp dir and assembled by the real code from 5 working directories (one '
               'full of same-name same-size decoys) with absolute and relative main paths, both modes, and through the CLI with relative and '
               'absolute -i; bytes, ordered label table and constants must be equal everywhere and equal to the harness-spliced single '
-              'source; the Lean model (asmfs) must reply the same on the same filesystem.'),
+              'source; the Lean model (asmfs) must reply the same on the same filesystem. include_tree_splice / include_tree_same_result(_errors): include trees of ANY depth against IncTree.flat, a specification-side splice that mentions neither filesystem nor fuel (depth within the fuel is a hypothesis; trees containing include_bytes lines are outside, because such a line resolves relative to the file it stands in); cwd_irrelevant is true by construction for absolute paths.'),
         note=TB + ' Filesystem = absolute normalised POSIX paths; .. / non-normalised paths, symlinks, non-ASCII file names and include cycles (real code: RecursionError) are outside the model (counted, still covered by the oracle). The search order is the code\'s choice; the oracle splices with it. OS behaviour of os.path/open trusted.',
         ref='DESIGN.md §5 C14'),
     'C17': dict(
@@ -321,7 +321,7 @@ CLAIMS.update({
               'type, .line.file and .line.number must be the planted line\'s, ~10 % also through the CLI; the Lean model must reply the '
               'same error location. Whole programs (C15Program.lean): fault_reported_at_its_line - one faulty item of a listed class anywhere between good items (good = assembles in every context: the surroundings may define labels but contain no constant definitions and no references to labels) '
               '(any labels, data, aligns, instructions, pseudo-instructions that assemble in every context) makes assembleItems fail with the assembler\'s error '
-              'carrying that item\'s line, with and without compression; one instance per class; first_fault_wins_*: which of two faults is reported.'),
+              'carrying that item\'s line, with and without compression; one instance per class; first_fault_wins_*: which of two faults is reported. Text level (C15Text.lean): fault_reported_text - assembleText of a source text fails with the assembler error whose line number is the 1-based index of the faulty line and whose contents are that line of the text (LineOfFile now ties number to text); fault_text_example: a 6-line source whose 4th line addi x5, x6, 2048 is reported, both modes.'),
         note=TB + ' Wrong operand counts, unknown mnemonics / pack formats, align 0 and include cycles are not among the listed classes and are not planted. For a duplicated label either definition\'s line satisfies the oracle; the model demands the second. The whole-pipeline statement is proved for one fault among context-independent good items (GoodItem); surroundings whose own success depends on the layout are covered by the planted-fault runs only.',
         ref='DESIGN.md §5 C15'),
     'C16': dict(
